@@ -22,13 +22,17 @@ func Copy(ctx context.Context, ids []ChunkID, src Store, dst WriteStore, n int, 
 	// Start the workers
 	for i := 0; i < n; i++ {
 		g.Go(func() error {
+			defer verifYield("pl.exit")
+			verifYield("pl.idle")
 			for id := range in {
+				verifYield("pl.job", "id", id)
 				pb.Increment()
 				hasChunk, err := dst.HasChunk(id)
 				if err != nil {
 					return err
 				}
 				if hasChunk {
+					verifYield("pl.idle")
 					continue
 				}
 				chunk, err := src.GetChunk(id)
@@ -38,6 +42,7 @@ func Copy(ctx context.Context, ids []ChunkID, src Store, dst WriteStore, n int, 
 				if err := dst.StoreChunk(chunk); err != nil {
 					return err
 				}
+				verifYield("pl.idle")
 			}
 			return nil
 		})
@@ -46,12 +51,15 @@ func Copy(ctx context.Context, ids []ChunkID, src Store, dst WriteStore, n int, 
 	// Feed the workers, the context is cancelled if any goroutine encounters an error
 loop:
 	for _, c := range ids {
+		verifYield("pl.feed", "id", c)
 		select {
 		case <-ctx.Done():
+			verifYield("pl.leave")
 			break loop
 		case in <- c:
 		}
 	}
+	verifYield("pl.close")
 	close(in)
 
 	return g.Wait()
